@@ -660,6 +660,37 @@ def deletion_list(R, ctx, rid="C11.delete", status_rid=None):
     R.require(rid, "floor", n >= 2, "", "%d additions to %s.%s" % (n, adt.split("::")[-1], fld))
 
 
+def write_target(R, ctx, rid="C11.write-target"):
+    """The resource layer creates, renames and deletes nothing but the location it was given (and its parent directories)."""
+    lib = ctx.lib
+    R.rule(rid, "in the file-system arm of the resource layer's write / remove operations, every file created, written, renamed or deleted is the "
+                "location the caller gave (the parameter itself, or its `parent()` for the directories created on the way): no sibling name is "
+                "computed from it (`with_extension`, `with_file_name`, `join`, `push`, ...). A temporary or backup file next to the output is a file "
+                "that is neither an input's output nor mirrored -- and replaces or deletes whatever had that name")
+    FS_MUT = {"write", "create", "create_new", "create_dir", "create_dir_all", "remove_file", "remove_dir", "remove_dir_all", "rename", "copy", "hard_link", "open"}
+    ARITH = {"with_extension", "with_file_name", "with_added_extension", "join", "push", "set_extension", "set_file_name", "file_stem", "file_name", "format", "to_lowercase", "replace", "concat"}
+    n = 0
+    for f in ctx.lib.fn_list:
+        if not thir.body_of(f) or not (f.get("file") or "").endswith("frontend/resources.rs"):
+            continue
+        fa = ctx.an.fa(f["path"])
+        for c in thir.fn_refs(f):
+            fn = c.get("fn") or ""
+            if not ((fn.startswith("std::fs::") and c.get("fname") in FS_MUT) or fn in ("std::fs::File::create", "std::fs::OpenOptions::open")):
+                continue
+            if c.get("k") != "Call" or not c.get("args"):
+                continue
+            for ai, a in enumerate(c["args"]):
+                if "t" in a and "path" not in lib.ty_str(lib.strip_refs(a["t"])).lower() and "P" != lib.ty_str(lib.strip_refs(a["t"])):
+                    continue
+                srcs = {y.get("fname") for y in fa.source_calls(a)}
+                bad = sorted(srcs & ARITH)
+                n += 1
+                R.ob(rid, "%s|%s|arg%d|is-the-given-location" % (f["path"].split("::")[-1], c.get("fname"), ai), not bad, ctx.where(f, c.get("ln")),
+                     "the location given by the caller (or its parent)" if not bad else "the path is computed with %s: a file the caller never named" % bad, nontrivial=bool(bad))
+    R.require(rid, "floor", n >= 3, "", "%d path arguments of mutating std::fs calls in the resource layer" % n)
+
+
 def run(R, ctx):
     R.explanation = (
         "Who-may-write tables, MIR dominance/must-pass rules on the worker's write/done/flush paths, the error arm of the work loop, "
@@ -683,3 +714,4 @@ def run(R, ctx):
     from . import c20
     c20.table(R, ctx, rid="C11.filter")
     deletion_list(R, ctx)
+    write_target(R, ctx)
